@@ -219,6 +219,7 @@ func runCheck(id, tier string, seed int, overlay map[string][]byte, quiet bool) 
 		failedNames                                               []string
 		foreign                                                   []string
 		slow                                                      []sample
+		standins                                                  []map[string]interface{}
 	)
 	seenStr := map[string]bool{}
 	addU := func(dst *[]string, xs []string) {
@@ -264,6 +265,17 @@ func runCheck(id, tier string, seed int, overlay map[string][]byte, quiet bool) 
 				break
 			}
 		}
+		if suffix != "" && !quiet && o.Kind != "cover" {
+			// bounded witness search on the real code for the function's family
+			if h := harnessFor(o.Func); h != nil {
+				hr := runHarness(h, o.Func, overlay)
+				rep["witness_search"] = hr
+				if hr.Reproduced {
+					suffix = ""
+					rep["failing_input"] = hr.Failure
+				}
+			}
+		}
 		writeJSON(f, rep)
 		printf("VIOLATION property=%s replay=%s%s\n", id, f, suffix)
 	}
@@ -281,6 +293,48 @@ func runCheck(id, tier string, seed int, overlay map[string][]byte, quiet bool) 
 		addU(&userCalls, fr.UserCalls)
 		for _, n := range fr.Notes {
 			addU(&notes, []string{fr.Name + ": " + n})
+		}
+		// Contract drift: a name, an anchor or the whole function a contract refers to is gone, so the
+		// obligations of this function cannot be generated (or were generated with hooks missing)
+		// and nothing the solver says about them is reliable. The function is outside the verifier's
+		// reach; where a bounded witness search exists for its family it stands in (labelled bounded).
+		var driftWhy []string
+		if fr.Err != "" {
+			driftWhy = append(driftWhy, fr.Err)
+		}
+		for _, o := range fr.Obligs {
+			if o.Kind == "drift" && o.Status != "discharged" {
+				driftWhy = append(driftWhy, strings.TrimPrefix(o.Name, fr.Name+"/"))
+			}
+		}
+		if len(driftWhy) > 0 {
+			if h := harnessFor(fr.Name); h != nil {
+				hr := runHarness(h, fr.Name, overlay)
+				if hr.Reproduced || (hr.Passed && h.StandIn) {
+					f := filepath.Join(replayDir, mangle(fr.Name)+"_bounded_standin.json")
+					rep := map[string]interface{}{"property": id, "obligation": fr.Name + "/bounded-standin[" + h.Name + "]", "contract_drift": driftWhy,
+						"reason": "the contract of this function no longer matches the code, so its obligations could not be generated; the bounded witness search " + h.Name + " on the real code stands in for them",
+						"witness_search": hr}
+					if hr.Reproduced {
+						violations++
+						rep["failing_input"] = hr.Failure
+						writeJSON(f, rep)
+						printf("VIOLATION property=%s replay=%s\n", id, f)
+						failedNames = append(failedNames, fr.Name+"/bounded-standin["+h.Name+"]: "+truncate(hr.Failure, 300))
+					} else {
+						writeJSON(f, rep)
+						printf("UNDECIDED property=%s function=%s contract drift (%s); bounded stand-in %s passed %s scenarios on the real code - not a proof\n", id, fr.Name, truncate(strings.Join(driftWhy, "; "), 160), h.Name, hr.Scenarios)
+						standins = append(standins, map[string]interface{}{"function": fr.Name, "contract_drift": driftWhy, "harness": h.Name, "bound": h.Bound, "scenarios": hr.Scenarios, "result": "passed", "label": "bounded - not counted as proved"})
+					}
+					continue
+				}
+				if hr.Passed {
+					driftWhy = append(driftWhy, "witness search "+h.Name+" found no failing input ("+hr.Scenarios+" scenarios), but a scripted concurrency harness does not stand in for a proof")
+				} else {
+					// the search itself could not be built or run on this tree: report the drift
+					driftWhy = append(driftWhy, "witness search "+h.Name+" could not run: "+truncate(hr.Output, 400))
+				}
+			}
 		}
 		if fr.Err != "" {
 			violations++
@@ -394,6 +448,7 @@ func runCheck(id, tier string, seed int, overlay map[string][]byte, quiet bool) 
 		"slowest":                  slow,
 		"explanation":              plan.Explain,
 		"failed_obligations":       failedNames,
+		"bounded_standins":         standins,
 		"solvers":                  s.R.BySolver,
 	}
 	if nObl == 0 {
@@ -476,6 +531,26 @@ func cmdReplay(args []string) int {
 				st, out := runOne(sp, q, 20000, 0)
 				fmt.Printf("re-running %s on %s: %s\n%s\n", sp.name, q, st, truncate(out, 3000))
 			}
+		}
+	}
+	if ws, ok := rep["witness_search"].(map[string]interface{}); ok {
+		name, _ := ws["harness"].(string)
+		for _, h := range harnesses {
+			if h.Name != name {
+				continue
+			}
+			fn := fmt.Sprint(rep["obligation"])
+			if i := strings.Index(fn, "/"); i >= 0 {
+				fn = fn[:i]
+			}
+			hr := runHarness(h, fn, nil)
+			fmt.Printf("witness search %s on the working tree (%s):\n%s\n", h.Name, hr.Command, hr.Output)
+			if hr.Reproduced {
+				fmt.Println("replay: the failure reproduces on the real code")
+				return 1
+			}
+			fmt.Println("replay: the witness search finds no failing input on this tree")
+			return 0
 		}
 	}
 	if r, ok := rep["replay"].(map[string]interface{}); ok {
